@@ -19,10 +19,12 @@ def judge_bbox(shape, rect):
     kept = []
     bare = False
     for sp in PG.interpret(cmds):
-        if sp.segs:
+        if any(not (sg[0] == "A" and sg[1] == sg[7]) for sg in sp.segs):
             kept.append(sp)
         else:
-            bare = True  # whether a drawing-free moveto counts is engine-defined: containment only
+            # whether a drawing-free moveto counts is engine-defined: containment only
+            # (an arc whose end points coincide is omitted by SVG F.6.2: it draws nothing either)
+            bare = True
     if not kept:
         return "out_of_domain", None
     bb = PG.tight_bbox(cmds, only_drawn=True)
@@ -171,6 +173,22 @@ class D(Driver):
             extra.append(f'<g opacity="0.5"><rect x="{gd.fnum(vx - 20)}" y="{gd.fnum(vy - 20)}" width="15" height="15" fill="#070809"/>'
                          f'<rect x="{gd.fnum(vx - 30)}" y="{gd.fnum(vy + 10)}" width="40" height="15" fill="#0a0b0c"/></g>')
             f["group_partly_clipped_away"] += 1
+        if rng.random() < 0.4:
+            # a self-overlapping outline that straddles a border, with every combination of fill-rule and a
+            # stray clip-rule (clip-rule means nothing outside a clipPath, and it survives the conversion)
+            side = rng.randrange(4)
+            cx = (vx, vx + vw, rng.uniform(vx + 20, vx + vw - 20), rng.uniform(vx + 20, vx + vw - 20))[side] + rng.uniform(-6, 6)
+            cy = (rng.uniform(vy + 20, vy + vh - 20), rng.uniform(vy + 20, vy + vh - 20), vy, vy + vh)[side] + rng.uniform(-6, 6)
+            o = gs.rule_sensitive(rng, lo=30, hi=70)  # centred somewhere in 50..50 +- ; recentre by a translate
+            attrs = f'fill="#0d0e0f" transform="translate({gd.fnum(round(cx - 50, 2))} {gd.fnum(round(cy - 50, 2))})"'
+            fr, cr = rng.choice((None, "nonzero", "evenodd")), rng.choice((None, "nonzero", "evenodd", "evenodd"))
+            if fr:
+                attrs += f' fill-rule="{fr}"'
+            if cr:
+                attrs += f' clip-rule="{cr}"'
+                f["stray_clip_rule"] += 1
+            extra.append(f'<path d="{gp.render(o)}" {attrs}/>')
+            f["self_overlapping_straddler"] += 1
         text = text.replace("</svg>", "".join(extra) + "</svg>") if extra else text
         text = re.sub(r'viewBox="[^"]*"', f'viewBox="{vb}"', text, count=1)
         return text, f, (vx, vy, vw, vh)
